@@ -24,6 +24,8 @@ RULES_DOC["R7"] = "= C12.R3: a unit that is suspending is never terminated insid
 RULES_DOC["R8"] = "the directed-yield entry points that document ABT_ERR_INV_THREAD for the caller itself reach their switch primitive only after an effective test that the target is not the caller (a unit that switches to itself is RUNNING and queued at once)"
 RULES_DOC["R9"] = "= C01.R5: a yield-family callback pushes the caller back iff it was not cancelled (a terminated unit is never re-queued)"
 RULES_DOC["X4"] = common.X4_DOC
+RULES_DOC["R10"] = "a copy of *pp_local taken before a call that may resume the caller on another stream (any call that is handed pp_local itself) is not used after that call: the blocking helpers refresh *pp_local, a cached copy still names the old stream"
+RULES_DOC["R11"] = "ABT_thread_create_to stores the new handle through its out-parameter before it switches to the new ULT (the documented order: the created ULT may read the handle location as soon as it runs)"
 RULES_DOC.update({
     "R1": "= C02.R3: suspend callbacks publish BLOCKED before anything that lets a waker run",
     "R2": "resume: READY -> push -> un-count; ABT_thread_resume acts only on a unit observed BLOCKED (acquire)",
@@ -389,6 +391,58 @@ def rule_R8(P, rep):
                    loc=F.loc(i), site="%s/self-target" % fn)
 
 
+def rule_R10(P, rep):
+    n = 0
+    for F in sorted(P.functions.values(), key=lambda f: (f.file, f.line)):
+        pl = [p["n"] for p in F.params if p["t"].replace(" ", "") == "ABTI_local**"]
+        if not pl or not F.blocks:
+            continue
+        ppl = pl[0]
+        # locals that hold a copy of *pp_local
+        copies = {}
+        for _b, i in F.all_events():
+            nd = F.nodes[i]
+            if nd.get("k") == "decl":
+                for v in nd["vars"]:
+                    if "init" in v and canon.expr(F, v["init"], 0) == "*" + ppl:
+                        copies.setdefault(v["n"], []).append(i)
+            elif nd.get("k") == "bin" and nd.get("asg") and nd["op"] == "=":
+                ln = F.nodes[F.strip(nd["lh"])]
+                if ln.get("k") == "ref" and ln.get("dk") == "var" and canon.expr(F, nd["rh"], 0) == "*" + ppl:
+                    copies.setdefault(ln["n"], []).append(i)
+        # calls that receive pp_local itself
+        handoffs = [i for _b, i in F.calls() if any(F.nodes[F.strip(a)].get("k") == "ref" and F.nodes[F.strip(a)].get("n") == ppl
+                                                     for a in F.nodes[i]["a"])]
+        n += 1
+        bad = []
+        for v, defs in copies.items():
+            uses = [j for j, nd in enumerate(F.nodes) if nd and nd.get("k") == "ref" and nd.get("n") == v and nd.get("dk") == "var" and
+                    F.block_of(j) is not None and j not in defs]
+            for h in handoffs:
+                if not any(cfg.can_reach(F, d, h) or cfg.dominates(F, d, h) for d in defs):
+                    continue
+                for u in uses:
+                    if cfg.can_reach(F, h, u, avoid_nodes=defs):
+                        bad.append("`%s` (a copy of *%s taken at %s) is used at %s after %s was handed %s" %
+                                   (v, ppl, F.loc(defs[0]), F.loc(u), F.nodes[h]["fn"], ppl))
+        rep.ob("R10", "%s: no stale copy of *%s is used after a call that may change it" % (F.name, ppl), not bad,
+               "; ".join(sorted(set(bad)))[:500], loc="%s:%d" % (F.file, F.line), site="%s/stale-local" % F.name)
+    rep.need(n >= 6, "only %d functions take an ABTI_local ** parameter" % n)
+
+
+def rule_R11(P, rep):
+    F = P.fn("ABT_thread_create_to", "src/thread.c")
+    outp = [p["n"] for p in F.params if p["t"].replace(" ", "") == "ABT_thread*"]
+    rep.need(len(outp) == 1, "ABT_thread_create_to: out-handle parameter not found")
+    sw = [i for _b, i in F.calls("ABTI_ythread_yield_to")]
+    st = [i for _b, i, lh, rh in F.stores() if F.nodes[F.strip(lh)].get("k") == "un" and F.nodes[F.strip(lh)]["op"] == "*" and
+          F.base_var(lh) == outp[0] and rh is not None and "ABTI_ythread_get_handle(" in canon.expr(F, rh)]
+    rep.need(sw and st, "ABT_thread_create_to: switch or handle store not found")
+    late = [F.loc(s) for s in st if any(cfg.can_reach(F, w, s) for w in sw)]
+    rep.ob("R11", "ABT_thread_create_to stores the new handle before switching to the new ULT", not late,
+           "the handle is stored at %s, after the switch" % late, loc=F.loc(sw[0]), site="create_to/handle-first")
+
+
 def run(P, rep, tier):
     common.rule_X4(P, rep)
     common.run_shared(P, rep, which=("X1",))
@@ -406,5 +460,7 @@ def run(P, rep, tier):
     rule_R6(P, rep)
     common.borrow(rep, P, C12.rule_R3, "R7")
     rule_R8(P, rep)
+    rule_R10(P, rep)
+    rule_R11(P, rep)
     from . import C01
     common.borrow(rep, P, C01.rule_R5, "R9")
